@@ -5,3 +5,9 @@
 pub fn format_stub(_args: std::fmt::Arguments<'_>) -> String {
     String::new()
 }
+
+/// `HashMap::default()` seeds its hasher from the OS (thread-local keys, getrandom: a foreign
+/// function). Replaced by fixed keys; hash *values* are never asserted on.
+pub fn random_state_stub() -> std::hash::RandomState {
+    unsafe { std::mem::transmute::<(u64, u64), std::hash::RandomState>((0x0706050403020100, 0x0f0e0d0c0b0a0908)) }
+}
